@@ -11,6 +11,7 @@ for m in plan:
         continue
     wt, i = m["wt"], m["i"]
     r = out.get(m["id"], {"id": m["id"], "checks": {}})
+    r["wt"], r["i"] = wt, i
     subprocess.run(["git", "-C", wt, "checkout", "-q", "--", "pyscsi"])
     r["demo_clean_rc"] = subprocess.run(["/venv/bin/python", "seeded_out/demo_%d.py" % i], cwd=wt, capture_output=True).returncode
     a = subprocess.run(["git", "-C", wt, "apply", "seeded_out/patch_%d.diff" % i], capture_output=True, text=True)
